@@ -36,6 +36,10 @@ def main(argv: list[str] | None = None) -> int:
         ctx = Context(tier=args.tier)
         rep.analysed = ctx.analysed()
         mod.run(ctx, rep)
+        if rep.unmet_floors() and not rep.violations:
+            raise AnalysisError("instance floor not met (rule matched fewer "
+                                "sites than confirmed by hand): " +
+                                "; ".join(rep.unmet_floors()))
         ctx.check_resolution_floor()
         rep.analysed = ctx.analysed()
         known = {f["key"] for f in load_known().get("findings", [])}
